@@ -272,3 +272,47 @@ def compare(got, refs, rtol=1e-9):
                     continue
                 bad.append((i, var, k, gv, r, sc))
     return bad
+
+
+def scales(spec, state):
+    """{id: {var: [scale]}}: magnitude of the terms forming each next-state entry (for tolerances)."""
+    out, _qo, _lab = ref_step(spec, state)
+    return {i: {var: [x[1] for x in vals] for var, vals in vs.items()} for i, vs in out.items()}
+
+
+def compare_pair(a, b, sc, rtol=1e-9, atol=1e-12):
+    """Entry-wise comparison of two next-state dicts {id: {var: array}} with term scales sc.
+    Returns (mismatches, all_finite): mismatches = list of (id, var, k, a, b, scale|None, why)."""
+    bad = []
+    finite = True
+    for i, vs in b.items():
+        if i not in a:
+            bad.append((i, "*", -1, None, None, None, "missing-element"))
+            continue
+        for var, bv in vs.items():
+            av = a[i].get(var)
+            if av is None or len(av) != len(bv):
+                bad.append((i, var, -1, None if av is None else [float(x) for x in av], [float(x) for x in bv], None, "shape"))
+                continue
+            for k in range(len(bv)):
+                x, y = float(av[k]), float(bv[k])
+                s_ = sc[i][var][k]
+                if math.isnan(x) or math.isnan(y):
+                    finite = False
+                    if math.isnan(x) != math.isnan(y):
+                        bad.append((i, var, k, x, y, s_, "nan"))
+                    continue
+                if math.isinf(x) or math.isinf(y):
+                    finite = False
+                    if x != y:
+                        bad.append((i, var, k, x, y, s_, "inf"))
+                    continue
+                if not math.isfinite(s_):
+                    finite = False
+                    continue
+                if abs(x - y) > rtol * s_ + atol:
+                    bad.append((i, var, k, x, y, s_, "value"))
+    for i in a:
+        if i not in b:
+            bad.append((i, "*", -1, None, None, None, "extra-element"))
+    return bad, finite
